@@ -223,7 +223,7 @@ def collect(ck, n):
 
 def run(ck: Check):
     ck.trusted = TRUST
-    ck.prove(extra_targets=["Corr/Check_fac.v"])
+    ck.prove(extra_targets=["Corr/Check_fac.v", "Conc/FactoryExamples.v"])
     results = collect(ck, ck.n(1000, 20000))
     terms = [case_term(r) for r in results]
     bad = ck.coq_eval("fac", HEADER, terms, "fac_case", "check_fac", shard=200)
